@@ -384,6 +384,77 @@ func c09Pairing(c *Check, sp *ssa.Package) []string {
 		}
 	}
 	if reader == nil {
+		// the same pairing written as a table: a package-level list of
+		// {suffix, unmarshal function} filled in the package initialiser and walked
+		// in order by a function that tests strings.HasSuffix with the entry's suffix
+		if init := sp.Func("init"); init != nil {
+			type row struct {
+				suffix, codec, pos string
+				have          int
+			}
+			rows := map[string]*row{} // by element address
+			var order []string
+			eachInstr(init, func(_ *ssa.BasicBlock, i ssa.Instruction) {
+				st, ok := i.(*ssa.Store)
+				if !ok {
+					return
+				}
+				fa, ok := st.Addr.(*ssa.FieldAddr)
+				if !ok {
+					return
+				}
+				ia, ok := fa.X.(*ssa.IndexAddr)
+				if !ok {
+					return
+				}
+				k, isK := constInt(ia.Index)
+				if !isK {
+					return
+				}
+				id := fmt.Sprintf("%p/%03d", ia.X, k)
+				r := rows[id]
+				if r == nil {
+					r = &row{}
+					rows[id] = r
+					order = append(order, id)
+				}
+				if suf, ok := constString(st.Val); ok {
+					r.suffix, r.pos = suf, p.pos(st.Pos())
+					r.have |= 1
+				}
+				if fn, ok := stripValue(st.Val).(*ssa.Function); ok {
+					if o, ok := fn.Object().(*types.Func); ok && strings.HasPrefix(o.Name(), "Unmarshal") {
+						if k := codecOf(o); k != "" {
+							r.codec = k
+							r.have |= 2
+						}
+					}
+				}
+			})
+			sort.Strings(order)
+			var local []arm
+			for _, id := range order {
+				if r := rows[id]; r.have == 3 {
+					local = append(local, arm{r.suffix, r.codec, r.pos, len(local)})
+				}
+			}
+			if len(local) >= 2 {
+				for _, f := range p.RepoFuncs() {
+					if fnPkgPath(f) != pbutilPkg || reader != nil {
+						continue
+					}
+					eachCall(f, func(cl ssa.CallInstruction) {
+						if callIs(cl, "strings", "HasSuffix") {
+							if _, isConst := cl.Common().Args[1].(*ssa.Const); !isConst {
+								arms, reader = local, f
+							}
+						}
+					})
+				}
+			}
+		}
+	}
+	if reader == nil {
 		c.Undecidedf("CODEC-PAIRING", "reader", "-", "the suffix-dispatching reader of compiled models was not found in pkg/pbutil")
 		return nil
 	}
